@@ -85,5 +85,7 @@ func init() {
 	register("C07", "", ruleWholeBodyDecode)
 	register("C01", "", ruleHelperRegistration)
 	register("C02", "", ruleHelperRegistration)
+	register("C02", "", ruleStitchVariable)
+	register("C12", "", ruleStitchVariable)
 	register("X6", "debug: R6 over whole module", ruleErr(errScope{label: "all", pkgs: []string{"pebbles", "common", "executor", "format", "gqlerrors", "introspection", "merger", "planner", "queryer", "requests"}}))
 }
